@@ -84,6 +84,9 @@ func ParseFile(inputPath string) (areas []textArea, err error) {
 				if tag == "" {
 					continue
 				}
+				if field.Tag == nil { // 字段没有 tag, 如: Name string // @tag xxx, 没有可注入的位置直接跳过
+					continue
+				}
 
 				currentTag := field.Tag.Value
 				area := textArea{
